@@ -18,17 +18,19 @@ import (
 func init() { Drivers["C12"] = Driver{Level: "model_checking", Run: runC12} }
 
 type c12Report struct {
-	Driver     string         `json:"driver"`
-	Bound      int            `json:"bound"`
-	Executions int            `json:"executions"`
-	MaxPoints  int            `json:"max_decision_points"`
-	MaxSteps   int            `json:"max_scheduling_points"`
-	Complete   bool           `json:"complete"`
-	Outcomes   map[string]int `json:"outcomes"`
-	Race       bool           `json:"race_detector"`
-	Failure    string         `json:"failure"`
-	Schedule   []int          `json:"schedule"`
-	WallS      float64        `json:"wall_s"`
+	Driver      string         `json:"driver"`
+	Bound       int            `json:"bound"`
+	Executions  int            `json:"executions"`
+	MaxPoints   int            `json:"max_decision_points"`
+	MaxSteps    int            `json:"max_scheduling_points"`
+	Complete    bool           `json:"complete"`
+	Outcomes    map[string]int `json:"outcomes"`
+	Race        bool           `json:"race_detector"`
+	Failure     string         `json:"failure"`
+	SampleTrace []string       `json:"sample_trace"`
+	SampleSched []int          `json:"sample_schedule"`
+	Schedule    []int          `json:"schedule"`
+	WallS       float64        `json:"wall_s"`
 }
 
 // runC12 regenerates the overlay from /repo's working tree, builds the explorer
@@ -161,7 +163,7 @@ func runC12(c *Ctx) {
 			c.R.AddScenario(ev.ScenarioStat{Name: name, States: int64(rep.Executions), Transitions: int64(rep.Executions) * int64(rep.MaxSteps), MaxDepth: rep.MaxSteps, Exhaustive: rep.Complete, Bound: bound, Outcomes: len(rep.Outcomes),
 				Extra: map[string]any{"max_decision_points": rep.MaxPoints, "completed_deviation_bound": rep.Bound, "race_detector": rep.Race}, WallS: time.Since(t0).Seconds()})
 			if len(rep.Outcomes) > 0 {
-				c.R.Sample(map[string]any{"driver": j.name, "executions": rep.Executions, "distinct_results": len(rep.Outcomes)})
+				c.R.Sample(map[string]any{"driver": j.name, "executions": rep.Executions, "distinct_results": len(rep.Outcomes), "one_explored_schedule": rep.SampleSched, "its_scheduling_points": rep.SampleTrace})
 			}
 		}()
 	}
